@@ -163,6 +163,15 @@ def run_selftest(r):
         "misses": misses,
         "results": results,
     }
+    # mutation sweep over the functions the property's own rules read (evidence only: silent mutants need triage by reading)
+    if not os.environ.get("PRSA_NO_MUTSWEEP"):
+        try:
+            from . import mutsweep
+            from .model import repo_root
+            own = getattr(r.rep, "own_functions", None) or set(r.rep.functions)
+            r.rep.selftest["mutation_sweep"] = mutsweep.sweep(r.rep.prop, own, base_keys, r.P, repo_root())
+        except Exception as e:      # the sweep is an exploration aid; its failure must not change the verdict
+            r.rep.selftest["mutation_sweep"] = {"error": f"{type(e).__name__}: {e}"[:200]}
     if misses and not base_keys:
         raise AnalysisBroken("self-test miss: " + "; ".join(f"{m['variant']} (expected {m['expect']}, {m['status']} {m['message']})" for m in misses))
 
